@@ -48,7 +48,7 @@ TEXT = {
  "C06": ("Lean theorems on the nonce logic: caller IV verbatim; IV+Partial IV, Partial IV >= nonce size, missing Base IV refused; xor = RFC 9052 context IV xor left-padded Partial IV; derived nonce has the nonce length; "
          "never panics (the >= guard keeps the slice in range); random nonce is published in header 5; each encryption consumes its own block of the random stream; GetRandomBytes is make + crypto/rand.Read with no package state (regenerated). Recording Encryptor correspondence, sequences on one key object (seq) and histories of 10^4..10^6 library-chosen nonces per algorithm (msg.noncehistory)",
          "crypto/rand quality not a theorem", T, "7.6"),
- "C09": ("Lean theorems: re-encoding a decoded COSE_Sign1/COSE_Mac0 preserves protected, payload and signature/tag bytes, hence the verdict; COSE_Signature re-encodes its received bucket verbatim; RemoveCBORTag removes only the tag; "
+ "C09": ("Lean theorems: re-encoding a decoded COSE_Sign1/COSE_Mac0 preserves protected, payload and signature/tag bytes, hence the verdict; COSE_Signature re-encodes its received bucket verbatim, and decode -> encode -> decode is the identity on a decoded COSE_Sign of any number of signatures (body protected bytes, payload, every signature object incl. non-canonical peer buckets), hence the same Verify verdict (C09Sign); RemoveCBORTag removes only the tag; "
          "prefix bytes and tag numbers regenerated from the source; label maps (keys, header maps, claim maps with scalar / list values, any entry order) decode from their encoding with every typed accessor answering as before; "
          "a COSE_KDF_Context survives encode -> decode member by member, absent staying absent and present-but-empty staying present, through the decoder's first-octet dispatch (KdfRoundtrip, over the raw-item lemmas skipItem / rawArrayElems of Cbor/RawLemmas). "
          "Chains decode->encode->decode->verify on library-produced and foreign messages by correspondence",
